@@ -18,7 +18,8 @@ EXPLANATION = (
     "and only OSError/AttributeError from that step are tolerated; (R3) the pointer is written after everything it references "
     "(C03.R2) and every metadata-plane write goes through the R1 primitive; (R4) no other way to create a persistent file "
     "exists (C03.R1)."
-    " (R1b) the local ParquetWriter is opened on the temp file's path (not on the already-open handle), so close() flushes every byte before the fsync.")
+    " (R1b) the local ParquetWriter is opened on the temp file's path (not on the already-open handle), so close() flushes every byte before the fsync."
+    ' (R5) a failing content write / file fsync / writer close / rename leaves the publisher as an exception (handlers on the way re-raise).')
 NOT_DECIDED = "replay of the syscall trace in a power-loss model; filesystem semantics of fsync/rename"
 
 
